@@ -41,8 +41,9 @@ Definition glatents (s : gst) (t : Z) : list event :=
   | _ => []
   end.
 
-(* at most n latent steps of t after which goal holds of t's program point; Some (state, steps taken) *)
-Fixpoint lat_to (n : nat) (s : gst) (t : Z) (goal : pc -> bool) : option (gst * Z) :=
+(* at most n latent steps of t after which goal holds of t's program point; Some (state, steps taken).
+   ent: t may take the latent step at PIdle (the entry of a worker into _dispatch_block_async_invoke2) *)
+Fixpoint lat_to (ent : bool) (n : nat) (s : gst) (t : Z) (goal : pc -> bool) : option (gst * Z) :=
   if goal (pcs s t) then Some (s, 0) else
   match n with
   | O => None
@@ -51,13 +52,13 @@ Fixpoint lat_to (n : nat) (s : gst) (t : Z) (goal : pc -> bool) : option (gst * 
          match l with
          | [] => None
          | x :: r => match gstep s t x with
-                     | Some s1 => match lat_to n' s1 t goal with
+                     | Some s1 => match lat_to ent n' s1 t goal with
                                   | Some (s2, k) => Some (s2, k + 1)
                                   | None => try r
                                   end
                      | None => try r
                      end
-         end) (glatents s t)
+         end) (if pc_idle (pcs s t) && negb ent then [] else glatents s t)
   end.
 Definition accepts (t : Z) (e : event) (p : pc) : bool := match tstep t p e with Some _ => true | None => false end.
 
@@ -76,18 +77,30 @@ Fixpoint firsts (l seen : list Z) : list Z :=
   end.
 
 (* every thread performs the latent steps that its next recorded event needs, as soon as they are possible; a thread
-   with nothing left goes back to PIdle when it can.  The threads are visited in the order of their next recorded events
-   (sched passes the preferred order): the entry of a worker into _dispatch_block_async_invoke2 consumes a queued
-   submission (Block.pendsub), and when submissions are scarce the worker whose first recorded event comes first must
-   get it. *)
-Fixpoint settle (s : gst) (qs : list (Z * list event)) (ths : list Z) (nl : Z) : gst * Z :=
+   with nothing left goes back to PIdle when it can.
+   The entry of a worker into _dispatch_block_async_invoke2 consumes a queued submission (Block.pendsub); when submissions
+   are scarce the right worker must get it.  `ents` lists the threads in the order in which their invocations from a
+   queue begin in the recording (by the first recorded event of each invocation; computed by lib/props/c19.py).  A thread
+   may enter only when every earlier entry of `ents` belongs to a thread that is idle and cannot enter now (the flags do
+   not have the value its recording needs): an earlier entry of a thread that is still busy with a previous invocation
+   keeps its submission reserved. *)
+Definition next_goal (t : Z) (qs : list (Z * list event)) : pc -> bool :=
+  match lookup t qs with e :: _ => accepts t e | [] => pc_idle end.
+Fixpoint may_enter (s : gst) (qs : list (Z * list event)) (ents : list Z) (t : Z) : bool :=
+  match ents with
+  | [] => false
+  | w :: r =>
+      if w =? t then true
+      else if pc_idle (pcs s w) && match lat_to true 2 s w (next_goal w qs) with Some _ => false | None => true end
+           then may_enter s qs r t else false
+  end.
+Fixpoint settle (s : gst) (qs : list (Z * list event)) (ents : list Z) (ths : list Z) (nl : Z) : gst * Z * list Z :=
   match ths with
-  | [] => (s, nl)
+  | [] => (s, nl, ents)
   | t :: r =>
-      let goal := match lookup t qs with e :: _ => accepts t e | [] => pc_idle end in
-      match lat_to LAT_DEPTH s t goal with
-      | Some (s', k) => settle s' qs r (nl + k)
-      | None => settle s qs r nl
+      match lat_to (may_enter s qs ents t) LAT_DEPTH s t (next_goal t qs) with
+      | Some (s', k) => settle s' qs (if pendsub s' <? pendsub s then remove_first t ents else ents) r (nl + k)
+      | None => settle s qs ents r nl
       end
   end.
 
@@ -106,16 +119,16 @@ Fixpoint pick (s : gst) (qs : list (Z * list event)) (ord : list Z) (seen : list
            end
   end.
 
-Fixpoint sched (fuel : nat) (w : nat) (ths : list Z) (s : gst) (qs : list (Z * list event)) (ord : list Z) (done nl : Z)
-  : gst * Z * Z * list Z * list (Z * list event) :=
-  let '(s0, nl0) := settle s qs (firsts (ord ++ ths) []) nl in
+Fixpoint sched (fuel : nat) (w : nat) (ths : list Z) (s : gst) (qs : list (Z * list event)) (ents : list Z) (ord : list Z)
+  (done nl : Z) : gst * Z * Z * list Z * list (Z * list event) :=
+  let '(s0, nl0, ents0) := settle s qs ents (firsts (ord ++ ths) []) nl in
   match fuel with
   | O => (s0, done, nl0, ord, qs)
   | S f =>
       match ord with
       | [] => (s0, done, nl0, [], qs)
       | _ => match pick s0 qs ord [] w with
-             | Some (t, s') => sched f w ths s' (pop_q t qs) (remove_first t ord) (done + 1) nl0
+             | Some (t, s') => sched f w ths s' (pop_q t qs) ents0 (remove_first t ord) (done + 1) nl0
              | None => (s0, done, nl0, ord, qs)
              end
       end
@@ -197,9 +210,9 @@ Definition all_idle (s : gst) (ths : list Z) : bool := forallb (fun t => pc_idle
             flags; performed; queue <> NULL; gcount; bodies; fin; ninv; leaves; nreg; notifications submitted; qref;
             cancelled; program-point tag of the stuck thread; its recorded events not yet executed; disposed; dleave;
             pendsub] *)
-Definition replay (pf : bool) (w : nat) (qs : list (Z * list event)) (ord : list Z) : list Z :=
+Definition replay (pf : bool) (w : nat) (qs : list (Z * list event)) (ents ord : list Z) : list Z :=
   let ths := map fst qs in
-  let '(s, done, nl, rest, qs') := sched (S (length ord)) w ths (init_state pf) qs ord 0 0 in
+  let '(s, done, nl, rest, qs') := sched (S (length ord)) w ths (init_state pf) qs ents ord 0 0 in
   [done; Z.of_nat (length rest); nl; match rest with t :: _ => t | [] => -1 end; b2z (all_idle s ths); b2z (inv_b s ths);
    flags s; performed s; b2z (negb (queue s =? 0)); gcount s; bodies s; fin s; ninv s; leaves s; nreg s;
    sumf (fcnt s) (nreg s); qref s; b2z (cancelled s); match rest with t :: _ => pc_tag (pcs s t) | [] => -1 end;
